@@ -94,10 +94,14 @@ func multiFileJournal() (root, a, b []jr.Dir) {
 	root = append(opensPrefix(), jr.P("2020-01-02", "USD", "0.9", "CHF"), jr.P("2020-01-02", "EUR", "1.1", "CHF"),
 		jr.T("2020-01-30", "chf", jr.B(accOpening, accChecking, "10", "CHF")))
 	a = []jr.Dir{
+		// the same pair quoted on one day in both included files: the later one in source
+		// order (b.knut) is the price of the day, whichever file is loaded first
+		jr.P("2020-01-31", "USD", "0.95", "CHF"),
 		jr.T("2020-01-30", "usd a", jr.B(accOpening, accChecking, "100", "USD")),
 		jr.T("2020-01-31", "eur a", jr.B(accOpening, accSavings, "5", "EUR")),
 	}
 	b = []jr.Dir{
+		jr.P("2020-01-31", "USD", "0.97", "CHF"),
 		jr.T("2020-01-30", "usd b", jr.B(accOpening, accChecking, "50", "USD")),
 		jr.T("2020-01-31", "eur b", jr.B(accOpening, accSavings, "7", "EUR")),
 		jr.A("2020-02-01", jr.Bal{Acc: accChecking, Qty: "150", Com: "USD"}, jr.Bal{Acc: accSavings, Qty: "12", Com: "EUR"}),
